@@ -143,6 +143,11 @@ func tamperings(pool *KeyPool, k *Key, good string, tamper string) (out []struct
 				}
 			}
 
+			// bytes after the header object: a second object, a brace, a letter, a NUL byte, a line feed and a second object
+			for _, tail := range []string{`{"alg":"none"}`, `}`, `x`, "\x00", "\n" + `{"kid":"other"}`, `,`, `]`} {
+				add(fmt.Sprintf("header object followed by %q", tail), join([]byte(body+tail), payload, sig), k.JWK)
+			}
+
 			add("further member crit", join([]byte(`{`+inner+`,"crit":["b64"],"b64":true}`), payload, sig), k.JWK)
 			add("further member b64 true", join([]byte(`{`+inner+`,"b64":true}`), payload, sig), k.JWK)
 			add("further member x", join([]byte(`{`+inner+`,"x":1}`), payload, sig), k.JWK)
@@ -576,6 +581,30 @@ func jwsReplay(args []string) {
 						}
 					}
 
+					// a JWS whose protected header carries a key of its own (the signer's): it verifies under the signer's key,
+					// and under no other - the key to verify with is the caller's, not the sender's
+					for _, hname := range []string{"publicKeyJwk", "jwk"} {
+						ej, ee := jwsutil.NewJWS(jws.Headers{"alg": key.Alg, hname: jwkMap(key.JWK)}, nil, payload, signer)
+						if ee != nil {
+							continue // (a library may refuse the header)
+						}
+
+						es, se := ej.SerializeCompact(false)
+						if se != nil {
+							continue
+						}
+
+						for _, okt := range allKTs {
+							other := pool.Get(okt, "jws-other-embedded")
+
+							if _, verr := jwsutil.VerifyJWS(es, other.JWK); verr == nil {
+								fail("verify-verdict", "a JWS that carries the signer's key in its header ("+hname+") verifies under another key ("+okt+")",
+									map[string]interface{}{"verifies": false}, map[string]interface{}{"verifies": true}, es)
+								return
+							}
+						}
+					}
+
 					// the b64 header (RFC 7797), true and false, with payloads that hold periods: what the library serializes it
 					// reads back, verified, with the payload unchanged
 					for _, b64v := range []bool{true, false} {
@@ -764,6 +793,75 @@ func jwsReplay(args []string) {
 			}
 		}
 
+		// one key OBJECT that is given another key's value between two conversions (a key rotated in place), and a
+		// result that the caller changes: every conversion answers for the value the object has at that moment
+		if c.Mod == "none" {
+			if pk, isEC := key.Pub.(*ecdsa.PublicKey); isEC {
+				other := pool.Get(c.Kt, "c16-rotated").Pub.(*ecdsa.PublicKey)
+				slot := *other
+
+				j1, e1 := pubkey.GetPublicKeyJWK(&slot)
+				if e1 == nil {
+					j1.Nonce = "a nonce of the caller's"
+				}
+
+				slot = *pk
+
+				j2, e2 := pubkey.GetPublicKeyJWK(&slot)
+				j3, e3 := pubkey.GetPublicKeyJWK(&slot)
+
+				if e1 != nil || e2 != nil || e3 != nil || j2.X != j.X || j2.Y != j.Y || j2.Nonce != "" || j3.Nonce != "" || j3.X != j.X {
+					fail("jwk-encoding", fmt.Sprintf("a key object that was given another value between two conversions (%v %v %v)", e1, e2, e3), j, []interface{}{j2, j3}, nil)
+					return
+				}
+			}
+		}
+
+		// secp256k1: a point whose x lies between the group order n and the field prime p is a public key like any other
+		if c.Mod == "none" && c.Kt == "k1" && c.Shape == "normal" {
+			curve := curveOf("k1")
+			prm := curve.Params()
+
+			for d := int64(0); d < 2000; d++ {
+				x := new(big.Int).Add(prm.N, big.NewInt(d))
+				if x.Cmp(prm.P) >= 0 {
+					break
+				}
+
+				rhs := new(big.Int).Exp(x, big.NewInt(3), prm.P)
+				rhs.Add(rhs, prm.B).Mod(rhs, prm.P)
+
+				y := new(big.Int).ModSqrt(rhs, prm.P)
+				if y == nil {
+					continue
+				}
+
+				pj, perr := pubkey.GetPublicKeyJWK(&ecdsa.PublicKey{Curve: curve, X: x, Y: y})
+				if perr != nil {
+					fail("jwk-error", "a point with n <= x < p: "+perr.Error(), nil, nil, nil)
+					return
+				}
+
+				praw, _ := json.Marshal(pj)
+
+				var pback jwsutil.JWK
+
+				if e := pback.UnmarshalJSON(praw); e != nil {
+					fail("jwk-round-trip", "a secp256k1 key whose x lies between the group order and the field prime is not read back: "+e.Error(), "same key", nil, string(praw))
+					return
+				}
+
+				if bk, ok := pback.Key.(*ecdsa.PublicKey); !ok || bk.X.Cmp(x) != 0 || bk.Y.Cmp(y) != 0 {
+					fail("jwk-round-trip", "a secp256k1 key whose x lies between the group order and the field prime reads back as another key", "same key", nil, string(praw))
+					return
+				}
+
+				instances++
+
+				break
+			}
+		}
+
 		// a JWK of this key that fails as JSON (a member of the wrong type), then JWKs of the same type without
 		// coordinates: nothing of the first may be found in the second (on one processor: see disturbances)
 		if c.Mod == "none" {
@@ -813,6 +911,11 @@ func jwsReplay(args []string) {
 			mod.X = "+" + j.X[1:]
 		case "x_short_shadowed":
 			mod.X = b64(x[1:])
+		case "x_long_256":
+			mod.X = b64(append(make([]byte, 256), x...))
+			if c.Kt == "ed" {
+				mod.X = b64(append(append([]byte(nil), x...), make([]byte, 256)...)) // (what a truncating reader would cut back to the key)
+			}
 		case "x_short_y_long":
 			mod.X = b64(x[1:])
 			mod.Y = b64(append([]byte{0}, y...))
